@@ -75,6 +75,14 @@ def setup():
     return _S
 
 
+def scratch_dir():
+    """per process (worker processes are forked after setup())"""
+    s = setup()
+    d = os.path.join(s["scratch"], f"p{os.getpid()}")
+    os.makedirs(d, exist_ok=True)
+    return d
+
+
 def make_config(hosts, cores, on_error="continue", test_mode=False, extra=None):
     s = setup()
     config, opts = s["config"], s["opts"]
@@ -86,7 +94,7 @@ def make_config(hosts, cores, on_error="continue", test_mode=False, extra=None):
     cfg.add(A, "system", "available.cores", cores)
     cfg.add(A, "system", "offline.mode", True)
     cfg.add(A, "system", "quiet.mode", False)
-    cfg.add(A, "node", "root.dir", s["scratch"])
+    cfg.add(A, "node", "root.dir", scratch_dir())
     cfg.add(A, "node", "rally.root", os.path.join(os.environ.get("VERIF_REPO", "/repo"), "esrally"))
     cfg.add(A, "track", "challenge.name", "c")
     cfg.add(A, "track", "params", {})
@@ -103,7 +111,7 @@ def make_config(hosts, cores, on_error="continue", test_mode=False, extra=None):
     cfg.add(A, "driver", "profiling", False)
     cfg.add(A, "driver", "assertions", False)
     cfg.add(A, "reporting", "datastore.type", "in-memory")
-    cfg.add(A, "benchmarks", "local.dataset.cache", os.path.join(s["scratch"], "data"))
+    cfg.add(A, "benchmarks", "local.dataset.cache", os.path.join(scratch_dir(), "data"))
     for (sec, k), v in (extra or {}).items():
         cfg.add(A, sec, k, v)
     return cfg
@@ -156,7 +164,8 @@ class RaceControl:
 
 
 def run_race(schedule, hosts, cores, behaviour, chooser, offsets=None, on_error="continue", horizon=600.0, cfg_extra=None,
-             faults=None, test_mode=False, on_sim=None, shutdown_after=True, store=False, max_steps=20000, track_plugin_hook=None):
+             faults=None, test_mode=False, on_sim=None, shutdown_after=True, store=False, max_steps=20000, track_plugin_hook=None,
+             rc_factory=None, schedule_track=None):
     """runs one race under the given chooser.  Returns Race(status, rc, log, sim, ...)"""
     s = setup()
     driver = s["driver"]
@@ -177,8 +186,9 @@ def run_race(schedule, hosts, cores, behaviour, chooser, offsets=None, on_error=
             if store:
                 mstore = s["metrics"].InMemoryMetricsStore(cfg)
                 mstore.open("verif-race", datetime.datetime(2026, 1, 1), "verif", "c", "external", create=True)
-            rc = RaceControl(sim, cfg, trk, daddr, mstore)
+            rc = rc_factory(sim, cfg, trk, daddr, mstore) if rc_factory else RaceControl(sim, cfg, trk, daddr, mstore)
             r.rc = rc
+            r.driver_addr = daddr
             seen = [0]
 
             def pump():
@@ -205,7 +215,8 @@ def run_race(schedule, hosts, cores, behaviour, chooser, offsets=None, on_error=
             if shutdown_after:
                 # race control shuts the actor system down: recursive ActorExitRequest from the top
                 sim.phase = "shutdown"
-                sim.tell(daddr, ta.ActorExitRequest())
+                if not getattr(rc, "exit_sent", False):
+                    sim.tell(daddr, ta.ActorExitRequest())
                 r.shutdown_status = sim.run(until=lambda s_: (pump() or False))
                 pump()
                 r.threads_left = [t.name for t in sim.threads if t.state not in ("finished", "dead", "killed")]
